@@ -192,6 +192,10 @@ pub assume_specification<T>[ std::option::Option::<std::option::Option<T>>::flat
     ensures r == (match o { Some(Some(x)) => Some(x), _ => None::<T> });
 pub assume_specification<'a, T: Copy>[ std::option::Option::<&'a T>::copied ](o: Option<&'a T>) -> (r: Option<T>)
     ensures r == (match o { Some(x) => Some(*x), None => None::<T> });
+/// `Vec::retain`: what remains was there before, in the same order (which elements stay is the closure's business and is not specified)
+pub assume_specification<T, A: std::alloc::Allocator, F: FnMut(&T) -> bool>[ std::vec::Vec::<T, A>::retain ](v: &mut std::vec::Vec<T, A>, f: F)
+    ensures final(v)@.len() <= old(v)@.len(),
+        forall|i: int| 0 <= i < final(v)@.len() ==> old(v)@.contains(#[trigger] final(v)@[i]);
 /// `Vec::dedup`: consecutive repeats are removed -- the same elements remain, no more of them than before, and no two neighbours
 /// are equal (stated for element types whose `==` is structural equality)
 pub assume_specification<T: PartialEq, A: std::alloc::Allocator>[ std::vec::Vec::<T, A>::dedup ](v: &mut std::vec::Vec<T, A>)
